@@ -168,9 +168,12 @@ SWEEP_FLAVOURS = {
     'root-auto':      ['VX_HEAD=1'],
     'peer-manual-ser': ['VX_HEAD=0', 'VX_MANUAL=1', FEAT['SER']],
     'root-auto-ser':  ['VX_HEAD=1', FEAT['SER']],
+    'root-auto-plans': ['VX_HEAD=1', FEAT['PLANS']],            # + a plan walked through every state, outcome callbacks, user data in the state objects
+    'peer-auto-plans': ['VX_HEAD=0', FEAT['PLANS']],
+    'root-auto-hist': ['VX_HEAD=1', FEAT['HIST']],              # + replayTransition(k) from j, and the same k again
 }
-def sweep(V, tier, flavours, budget):
-    ns = n_list(tier)
+def sweep(V, tier, flavours, budget, ns=None):
+    ns = ns or n_list(tier)
     jobs = []
     for h in header_variants():
         for fl in flavours:
@@ -208,6 +211,7 @@ def check_c14(tier):
     V = Verdict('C14', tier)
     V.assumptions = ['callbacks of the swept machines take no decisions (dispatch only); guard-decision behaviour is the subject of C02-C04']
     sweep(V, tier, ['root-auto', 'peer-manual-ser'], 200 if tier == 'quick' else 1700)
+    sweep(V, tier, ['root-auto-hist'], 150 if tier == 'quick' else 600, ns=[1, 2, 3, 5, 8, 9, 17, 64, 129, 255] if tier == 'quick' else [1, 2, 3, 4, 5, 6, 7, 8, 9, 16, 17, 31, 33, 64, 65, 127, 128, 129, 200, 254, 255])
     ctor_forms(V)
     # keep only what C14 judges: drop serialization predicates reported by the shared harness
     V.violations = [v for v in V.violations if not re.match(r'(save|load|buffer)', v['pred'])]
@@ -336,6 +340,7 @@ def check_c18(tier):
         jobs.append((('seqx_bitstream.cpp', []), dict(variant=v, access=False, extra=['-w']), 'bitstream', ['--workers=%d' % NCPU, '--skip-bitwidth']))
         jobs.append((('seqx_containers.cpp', ['VX_PART=3']), dict(variant=v, extra=['-w']), 'tasklist', ['--what=tasklist', '--workers=%d' % NCPU]))
         jobs.append((('seqx_containers.cpp', ['VX_PART=1', 'VX_CLO=1', 'VX_CHI=40']), dict(variant=v, extra=['-w']), 'bitarray', ['--what=bitarray', '--workers=%d' % NCPU]))
+        if v == 'asan-clang': jobs.append((('sweepx_n.cpp', ['VX_NSTATES=250', 'VX_HEAD=1', FEAT['PLANS']]), dict(variant=v, access=False, extra=['-w', '-ftemplate-depth=2048', '-g0']), 'sweep N=250 plans', []))
         for n in ((1, 2, 255) if tier == 'quick' else (1, 2, 3, 9, 64, 128, 255)):
             if tier == 'quick' and n == 255 and v != 'asan-gcc': continue
             jobs.append((('sweepx_n.cpp', ['VX_NSTATES=%d' % n, 'VX_HEAD=0', 'VX_MANUAL=1', FEAT['SER']]), dict(variant=v, access=False, extra=['-w', '-ftemplate-depth=2048'] + (['-g0'] if n > 100 else [])), 'sweep N=%d' % n, []))
@@ -452,6 +457,11 @@ def check_c19(tier):
                 V.add_violation('unused-feature-changes-behaviour', 'explorer: a program that uses [%s] behaves differently when further, unused features are enabled: %s differ from [%s] (digests %s)' % (' '.join(U) or 'no feature', [(' '.join(k[0]), k[1]) for k in odd], ' '.join(U), sorted(set(nd.values()))), dict(kind='differential', base=base, uses=list(U), odd=[[list(k[0]), k[1]] for k in odd]))
             else:
                 V.extra.setdefault('explorer_feature_differentials', []).append({'base': base, 'program_uses': list(U), 'builds_compared': len(nd), 'tuples': list(nd.values())[0][1] if nd else 0})
+    # large machines: a feature that is compiled in but not used (PLANS, HISTORY) must leave the dispatch sweep and the user data kept in
+    # the state objects untouched (the sweeps with these switches also use the feature afterwards; any deviation is reported here)
+    before = len(V.violations)
+    sweep(V, tier, ['root-auto-plans', 'root-auto-hist'], 200 if tier == 'quick' else 900, ns=[9, 250, 255] if tier == 'quick' else [2, 9, 17, 65, 129, 249, 250, 254, 255])
+    for v in V.violations[before:]: v['pred'] = 'unused-feature-changes-behaviour'
     # the shipped header is exactly the amalgamation of the development sources
     try:
         am = amalgamate(); sh = shipped_header_text()
@@ -472,3 +482,13 @@ vc.POST_HOOKS['C02'] = lambda V, tier: config_chain(V, {'limit', 'activation'})
 vc.POST_HOOKS['C04'] = lambda V, tier: config_chain(V, {'limit'})
 vc.POST_HOOKS['C06'] = lambda V, tier: config_chain(V, {'context'})
 vc.POST_HOOKS['C07'] = lambda V, tier: config_chain(V, {'payload'})
+
+# large machines for the explorer-driven properties whose quantifier names the machine size: the dispatch / plan / replay sweeps
+def _big_sweep(V, tier, flavours, ns, keep):
+    before = len(V.violations)
+    sweep(V, tier, flavours, 200 if tier == 'quick' else 900, ns=ns)
+    V.violations = V.violations[:before] + [v for v in V.violations[before:] if re.search(keep, v['pred'] + ' ' + v['text'])]
+_old05 = vc.POST_HOOKS.get('C05')
+vc.POST_HOOKS['C05'] = lambda V, tier: _big_sweep(V, tier, ['root-auto'], [8, 17, 128, 129, 255] if tier == 'quick' else [8, 16, 17, 33, 64, 65, 127, 128, 129, 130, 200, 254, 255], r' update | react | query |state-data')
+vc.POST_HOOKS['C08'] = lambda V, tier: _big_sweep(V, tier, ['root-auto-plans', 'peer-auto-plans'] if tier == 'thorough' else ['root-auto-plans'], [9, 65, 250, 255] if tier == 'quick' else [2, 8, 9, 16, 17, 64, 65, 128, 129, 248, 249, 250, 254, 255], r'plan|state-data')
+vc.POST_HOOKS['C09'] = lambda V, tier: _big_sweep(V, tier, ['root-auto-plans'], [9, 65, 250, 255] if tier == 'quick' else [2, 8, 9, 16, 17, 64, 65, 128, 129, 248, 249, 250, 254, 255], r'plan|outcome|state-data')
